@@ -55,13 +55,19 @@ Example C19_ex_boundary :
   /\ read_many toy (render_items its ++ render_pend pe) = Ok [Seq KExpr [Sym [97]]].
 Proof. vm_compute. repeat split; reflexivity. Qed.
 
-(* The faithful model violates the property at three classes of cut points (each witness is a
-   well-formed text that reads, cut inside an unclosed construct, and the prefix reads as Lex):
-   the text  ( f DQ a { x } DQ )  cut after the x  (DQ = double quote) -- read_fcomponent tests that the
-   next character is the closing brace, at the end of input *)
-Theorem C19_refuted_fstring_field : exists t k ms,
-  read_many toy t = Ok ms /\ Nat.ltb k (length t) = true /\ read_many toy (firstn k t) = Lex.
-Proof. exact refuted_fstring_field. Qed.
+(* since the fix of read_fcomponent (commit 156eccc) a cut inside a replacement field is a premature end:
+   the text  ( f DQ a { x  (DQ = double quote), as a partial tree *)
+Example C19_ex_fstring_field :
+  let pe := PEnd SNil (TForm (PSeq KExpr INil (PEnd SNil (TFldHead [97] SNil (CLeaf [120]) [])))) in
+  pwf_pend toy pe = true /\ render_pend pe = [40; 102; 34; 97; 123; 120] /\ read_many toy (render_pend pe) = Premature.
+Proof. vm_compute. repeat split; reflexivity. Qed.
+Example C19_ex_fstring_field_conversion :
+  let pe := PEnd SNil (TFldHead [] (SWs 32 SNil) (CSeq KExpr (ICons SNil (CLeaf [120]) INil) SNil) [32; 61; 32; 33; 114]) in
+  pwf_pend toy pe = true /\ read_many toy (render_pend pe) = Premature.
+Proof. vm_compute. repeat split; reflexivity. Qed.
+
+(* The faithful model still violates the property at two classes of cut points (each witness is a
+   well-formed text that reads, cut inside an unclosed construct, and the prefix reads as Lex): *)
 (* (foo.bar)  cut after  (foo.     -- as_identifier validates the token when its characters end *)
 Theorem C19_refuted_dotted_identifier : exists t k ms,
   read_many toy t = Ok ms /\ Nat.ltb k (length t) = true /\ read_many toy (firstn k t) = Lex.
@@ -70,4 +76,4 @@ Proof. exact refuted_dotted_identifier. Qed.
 Theorem C19_refuted_fstring_rbrace : exists t k ms,
   read_many toy t = Ok ms /\ Nat.ltb k (length t) = true /\ read_many toy (firstn k t) = Lex.
 Proof. exact refuted_fstring_rbrace. Qed.
-Print Assumptions C19_refuted_fstring_field.
+Print Assumptions C19_refuted_dotted_identifier.
